@@ -46,10 +46,7 @@ Proof.
     + intros He. destruct (J5 s I u He) as (Hl & H1 & Ht1 & HWc & HRc). repeat split; auto. rewrite Htot; auto.
   - intros Hl. destruct (J6 s I Hl) as [H0 Hall]. split; [rewrite Htot; auto|].
     intros u. rewrite HT. destruct (Nat.eqb_spec u t) as [->|]; cbn [mustfree excl x']; apply Hall.
-  - intros u q m0. rewrite HT. destruct (Nat.eqb_spec u t) as [->|Hne']; cbn [refs clk x'].
-    + intros Hr' Hq Hn0 Hall1. apply (J7 s I t q m0 Hr' Hq Hn0).
-      intros m' Hin Hhb. apply (Hall1 m' Hin). eapply hb_mono; [exact Hcc | exact Hhb].
-    + apply (J7 s I u q m0).
+  - apply J7_upd; auto.
   - intros u. rewrite HT. destruct (Nat.eqb_spec u t) as [->|Hne']; cbn [started x']; [discriminate|].
     apply (J8 s I u).
   - intros Hl H0. rewrite Htot in H0. destruct (J9 s I Hl H0) as (h & Hm). exists h. rewrite HT.
@@ -128,19 +125,37 @@ Proof.
   - intros Hl. destruct (J6 s I Hl) as [H0 Hall]. split; [rewrite Htot; auto|].
     intros u. rewrite HT. destruct (Nat.eqb_spec u c); cbn [mustfree excl xc]; [auto|].
     destruct (Nat.eqb_spec u t) as [->|]; cbn [mustfree excl xp]; [split; [apply Hall|reflexivity]|apply Hall].
-  - intros u q m0. rewrite HT. destruct (Nat.eqb_spec u c) as [->|Hn1]; cbn [refs clk xc].
-    + intros Hr' Hq Hn0 Hall1.
-      pose proof (J7 s I t q m0 ltac:(lia) Hq Hn0) as HK.
-      assert (Hpre : forall m', In m' (firstn q (msgs s)) -> ~ hb m' (clk (T s t))).
-      { intros m' Hin Hhb. apply (Hall1 m' Hin). eapply hb_mono; [exact Hcc2 | exact Hhb]. }
-      specialize (HK Hpre). lia.
+  - intros u q m0.
+    pose (s2 := {| msgs := msgs s; Wc := Wc s; Rc := Rc s; live := live s; ths := upd (upd (ths s) t xp) c xc |}).
+    assert (Hnolend : forall w, lend (T s w) <> S t) by (intros w; apply lends_from_false; exact Hlf).
+    assert (Hclk : forall v, v <> c -> cle (clk (T s v)) (clk (T s2 v))).
+    { intros v Hvc. unfold s2. rewrite HT. destruct (Nat.eqb_spec v c) as [->|]; [contradiction|].
+      destruct (Nat.eqb_spec v t) as [->|]; [exact Hcc|apply cle_refl]. }
+    assert (Hbc : forall v w, lend (T s w) = S v -> w <> c).
+    { intros v w Hw ->. destruct (J10 s I c v Hw) as (Hx & _). congruence. }
+    assert (Hlend : forall v, lend (T s v) <> 0 -> lend (T s2 v) = lend (T s v)).
+    { intros v Hv0. unfold s2. rewrite HT. destruct (Nat.eqb_spec v c) as [->|].
+      - exfalso. destruct (lend (T s c)) as [|q0] eqn:El; [contradiction|]. destruct (J10 s I c q0 El) as (Hx & _). congruence.
+      - destruct (Nat.eqb_spec v t) as [->|]; reflexivity. }
+    rewrite HT. destruct (Nat.eqb_spec u c) as [->|Hn1]; cbn [refs clk xc].
+    + (* the child: what it has not seen the parent had not seen either; the parent lends nothing *)
+      intros Hr' Hq Hn0 Hall1.
+      assert (HK : refs (T s t) + 1 <= val m0).
+      { apply (J7 s I t q m0 ltac:(lia) Hq Hn0). intros m' Hin. destruct (Hall1 m' Hin) as (H1 & _). split.
+        - intros Hhb. apply H1. unfold s2. rewrite HT, Nat.eqb_refl. cbn [clk xc]. eapply hb_mono; [exact Hcc2|exact Hhb].
+        - intros w Hw. exfalso. exact (Hnolend w Hw). }
+      lia.
     + destruct (Nat.eqb_spec u t) as [->|Hn2]; cbn [refs clk xp].
       * intros Hr' Hq Hn0 Hall1.
-        pose proof (J7 s I t q m0 ltac:(lia) Hq Hn0) as HK.
-        assert (Hpre : forall m', In m' (firstn q (msgs s)) -> ~ hb m' (clk (T s t))).
-        { intros m' Hin Hhb. apply (Hall1 m' Hin). eapply hb_mono; [exact Hcc | exact Hhb]. }
-        specialize (HK Hpre). lia.
-      * apply (J7 s I u q m0).
+        assert (HK : refs (T s t) + 1 <= val m0).
+        { apply (J7 s I t q m0 ltac:(lia) Hq Hn0). intros m' Hin. destruct (Hall1 m' Hin) as (H1 & _). split.
+          - intros Hhb. apply H1. unfold s2. rewrite HT. destruct (Nat.eqb_spec t c); [congruence|]. rewrite Nat.eqb_refl.
+            cbn [clk xp]. eapply hb_mono; [exact Hcc|exact Hhb].
+          - intros w Hw. exfalso. exact (Hnolend w Hw). }
+        lia.
+      * intros Hr' Hq Hn0 Hall1. apply (J7 s I u q m0 Hr' Hq Hn0).
+        apply (unseen_mono s s2 u q); [reflexivity|apply Hclk; exact Hn1| |exact Hall1].
+        intros w Hw. split; [rewrite Hlend; [exact Hw|rewrite Hw; discriminate]|apply Hclk; exact (Hbc u w Hw)].
   - intros u. rewrite HT. destruct (Nat.eqb_spec u c) as [->|Hn1]; cbn [started xc]; [discriminate|].
     destruct (Nat.eqb_spec u t) as [->|Hn2]; cbn [started xp]; [discriminate|]. apply (J8 s I u).
   - intros Hl H0. rewrite Htot in H0. destruct (J9 s I Hl H0) as (h & Hm). exists h. rewrite HT.
